@@ -640,6 +640,18 @@ func (ndb *nodeDB) DeleteVersionsFrom(fromVersion int64) error {
 	}
 
 	// NOTICE: we don't touch fast node indexes here, because it'll be rebuilt later because of version mismatch.
+	// The mismatch has to be made explicit, though: versions committed later
+	// without maintaining the index can reach the labelled version number
+	// again, so the label of the now stale index is dropped.
+	if ndb.hasUpgradedToFastStorage() {
+		ndb.mtx.Lock()
+		err = ndb.batch.Delete(metadataKeyFormat.Key([]byte(storageVersionKey)))
+		ndb.storageVersion = defaultStorageVersionValue
+		ndb.mtx.Unlock()
+		if err != nil {
+			return err
+		}
+	}
 
 	ndb.resetLatestVersion(dumpFromVersion - 1)
 
